@@ -44,6 +44,9 @@ def kind_info(kind):
         "decimal64": ("INT64", "DECIMAL", lambda k: [-12345, -1, 0, 99999][k], "f"),
         "decimal_ba": ("BYTE_ARRAY", "DECIMAL", lambda k: [-12345, -1, 0, 99999][k], "f"),
         "decimal_flba": ("FIXED_LEN_BYTE_ARRAY", "DECIMAL", lambda k: [-12345, -1, 0, 99999][k], "f"),
+        # wide fixed-length decimals (9 and 16 bytes): small negative values have an all-ones high word
+        "decimal_flba9": ("FIXED_LEN_BYTE_ARRAY", "DECIMAL", lambda k: [-12345, -5, 0, 10 ** 15 + 7][k], "f"),
+        "decimal_flba16": ("FIXED_LEN_BYTE_ARRAY", "DECIMAL", lambda k: [-150000, -5, 0, 10 ** 20 + 700][k], "f"),
         "time_us": ("INT64", "TIME_MICROS", lambda k: [0, 1, 3600000000, 86399999999][k], "m"),
         "int8": ("INT32", "INT_8", lambda k: [-128, -7, 11, 127][k], "i"),
         "uint16": ("INT32", "UINT_16", lambda k: [0, 7, 32768, 65535][k], "u"),
@@ -69,6 +72,8 @@ def physical(kind, k):
         return int(v).to_bytes(max(1, (int(v).bit_length() + 8) // 8), "big", signed=True)
     if kind == "decimal_flba":
         return int(v).to_bytes(3, "big", signed=True)
+    if kind in ("decimal_flba9", "decimal_flba16"):
+        return int(v).to_bytes(9 if kind == "decimal_flba9" else 16, "big", signed=True)
     if kind == "int96":
         return int(v).to_bytes(8, "little") + (2440588 + k).to_bytes(4, "little")
     if kind == "float":
@@ -113,6 +118,8 @@ def equal(kind, got, k):
             return pd.Timedelta(got) == pd.Timedelta(want, unit="ms")
         if kind in ("decimal32", "decimal64", "decimal_ba", "decimal_flba"):
             return abs(float(got) - want / 100.0) < 1e-9
+        if kind in ("decimal_flba9", "decimal_flba16"):
+            return abs(float(got) - want / 100.0) <= 1e-9 + 1e-12 * abs(want / 100.0)
         if kind == "time_us":
             if isinstance(got, datetime.time):
                 return (((got.hour * 60 + got.minute) * 60 + got.second) * 1000000 + got.microsecond) == want
@@ -139,9 +146,11 @@ def make_spec(case):
     pt, ct, f, _ = kind_info(kind)
     node = {"name": "x", "type": pt, "repetition": "OPTIONAL" if case["optional"] else "REQUIRED", "converted_type": ct}
     if pt == "FIXED_LEN_BYTE_ARRAY":
-        node["type_length"] = 3
+        node["type_length"] = {"decimal_flba9": 9, "decimal_flba16": 16}.get(kind, 3)
     if kind in ("decimal32", "decimal64", "decimal_ba", "decimal_flba"):
         node["scale"], node["precision"] = 2, 7
+    if kind in ("decimal_flba9", "decimal_flba16"):
+        node["scale"], node["precision"] = 2, (20 if kind == "decimal_flba9" else 38)
     if kind == "ts_ns_logical":
         node["logical_type"] = {"TIMESTAMP": {"isAdjustedToUTC": False, "unit": {"NANOS": {}}}}
     cells = case["cells"]
